@@ -39,11 +39,11 @@ Proof.
     apply (T_seq NL); [|aret].
     destruct (match eo_interactive o with Some b => b | None => tty end).
     + eapply (T_bind NL).
-      * apply (safe_select_trash_dirs NL nomut_scan (fun acc ev => Ret (acc ++ [ev])) (fun _ => True) (fun _ => True)); auto;
+      * apply (safe_select_trash_dirs NL nomut_scan (fun acc ev => Ret (acc ++ [ev])) (fun _ => True) (fun _ => True)); try apply select_events_true; auto;
         try (intros s ev _ _; aret).
       * intros evs _. eapply (T_bind NL); [apply (T_call_str NL); reflexivity|]. intros reply _.
         destruct (parse_reply reply); [|aret]. apply (T_for_each NL). intros ev _. apply empty_handle_dry; exact H.
-    + apply (safe_select_trash_dirs NL nomut_scan (empty_handle o) (fun _ => True) (fun _ => True)); auto;
+    + apply (safe_select_trash_dirs NL nomut_scan (empty_handle o) (fun _ => True) (fun _ => True)); try apply select_events_true; auto;
       try (intros s ev _ _; apply empty_handle_dry; exact H).
 Qed.
 
@@ -79,7 +79,7 @@ Proof.
     eexists. split; [reflexivity|]. apply wp_bind.
     eapply wp_mono with (Q := fun _ _ => True) (E := fun _ _ => True); [intros; exact I|auto|].
     assert (Hask : wp (consent_step (eo_interactive o))
-      (evs <- select_trash_dirs (fun acc ev => Ret (acc ++ [ev])) (eo_trash_dirs o) (eo_environ o) (eo_uid o) [] ;;
+      (evs <- select_trash_dirs (fun acc ev => Ret (acc ++ [ev])) (eo_all_users o) (eo_trash_dirs o) (eo_environ o) (eo_uid o) [] ;;
        reply <- call_str (Input (prepare_output_message evs)) ;;
        if parse_reply reply then for_each evs (empty_handle o tt) else Ret tt) (fun _ _ => True) (fun _ _ => True) Unknown).
     { apply wp_bind.
@@ -92,7 +92,7 @@ Proof.
       - intros op r Hq. unfold quiet in Hq. apply andb_true_iff in Hq. destruct Hq as [Hm Hin].
         unfold consent_step. destruct (is_mutator op); [discriminate|]. destruct op; try discriminate; try reflexivity.
       - apply safe_of_asafe.
-        apply (safe_select_trash_dirs QL quiet_scan (fun acc ev => Ret (acc ++ [ev])) (fun _ => True) (fun _ => True)); auto;
+        apply (safe_select_trash_dirs QL quiet_scan (fun acc ev => Ret (acc ++ [ev])) (fun _ => True) (fun _ => True)); try apply select_events_true; auto;
         try (intros s ev _ _; apply (T_ret QL); exact I). }
     destruct (eo_interactive o) as [[|]|] eqn:Hi; [exact Hask|apply wp_absorbing; reflexivity|].
     destruct b; [exact Hask|apply wp_absorbing; reflexivity].
